@@ -403,10 +403,12 @@ pub fn c17_gaps(case: &Case, seed: u64) -> (Vec<Failure>, bool) {
     if numbers.is_empty() {
         return (out, false);
     }
-    let mut next = 1 + rng.below(1 << 20);
+    // one case in eight: the numbering ends at the largest number there is; two in eight: numbers of 20 significant
+    // digits (>= 10^19) that still leave room for new files
+    let mode = rng.below(8);
+    let mut next = if mode == 1 || mode == 2 { 10_000_000_000_000_000_000u64 + rng.below(8_000_000_000_000_000_000) } else { 1 + rng.below(1 << 20) };
     let mut map = std::collections::BTreeMap::new();
-    // one case in eight: the numbering ends at the largest number there is
-    let at_top = rng.chance(1, 8);
+    let at_top = mode == 0;
     if at_top {
         let mut n_hi = u64::MAX;
         for n in numbers.iter().rev() {
@@ -445,7 +447,7 @@ pub fn c17_gaps(case: &Case, seed: u64) -> (Vec<Failure>, bool) {
     let idx = case.ops.len();
     match recover(&renamed, &d.names, d.world.policy, &case.knobs) {
         // at the very top of the number range recovery's own GC may need a new file and there is none left
-        Err((crate::world::OpenFail::Io(_), _)) if at_top => {}
+        Err((crate::world::OpenFail::Io(m), _)) if at_top && m.contains("overflow") => {}
         Err((e, _)) => out.push(fail("C17", "gaps-open-failed", idx, format!("WAL files renumbered {:?} -> {:?} (order preserved): {}", numbers, map.values().collect::<Vec<_>>(), crate::crash::open_fail_text(&e)))),
         Ok((w, obs)) => {
             let want = d.model.to_obs();
